@@ -204,23 +204,57 @@ def run_lines(binary, lines, timeout=3000):
     return p.returncode, out, p.stderr
 
 
-def run_impl(lines):
-    """Runs the real code. If the process dies (abort/stack overflow), bisects to the line."""
-    rc, out, err = run_lines(RUN, lines)
-    if rc == 0 and len(out) == len(lines):
-        return out
-    # the process died on line len(out): record it and continue after it
-    res = list(out[:len(lines)])
-    while len(res) < len(lines):
-        res.append("abort")
-        rest = lines[len(res):]
-        if not rest:
+SKIPPED = "skipped-time-budget"
+
+
+def _run_impl_batch(lines, timeout):
+    """Runs the real code on a batch. If the process dies (abort/stack overflow), continues after
+    the offending line; if it exceeds `timeout`, the rest of the batch is marked skipped."""
+    res = []
+    rest = list(lines)
+    t0 = time.time()
+    while rest:
+        left = timeout - (time.time() - t0)
+        if left <= 0:
+            res.extend([SKIPPED] * len(rest))
             break
-        rc, out, err = run_lines(RUN, rest)
+        try:
+            rc, out, err = run_lines(RUN, rest, timeout=left)
+        except subprocess.TimeoutExpired as e:
+            got = (e.stdout or b"")
+            got = got.decode() if isinstance(got, bytes) else got
+            outl = got.split("\n")[:-1] if got else []
+            res.extend(outl[:len(rest)])
+            n = len(outl)
+            if n < len(rest):
+                res.append("hang")          # the line being executed when time ran out
+                res.extend([SKIPPED] * (len(rest) - n - 1))
+            break
         res.extend(out[:len(rest)])
-        if rc == 0 and len(out) == len(rest):
+        if rc == 0 and len(out) >= len(rest):
             break
+        # the process died on line len(out): record it and continue after it
+        died = len(out)
+        res.append("abort")
+        rest = rest[died + 1:]
     return res[:len(lines)]
+
+
+def run_impl(lines, budget=None):
+    """Runs the real code on all lines, in batches, within a wall-clock budget (seconds); lines
+    not reached are marked SKIPPED (the caller drops them and says so)."""
+    if budget is None:
+        return _run_impl_batch(lines, 3000)
+    res = []
+    t0 = time.time()
+    step = 2000
+    for i in range(0, len(lines), step):
+        left = budget - (time.time() - t0)
+        if left <= 0:
+            res.extend([SKIPPED] * (len(lines) - i))
+            break
+        res.extend(_run_impl_batch(lines[i:i + step], left))
+    return res
 
 
 def run_model(lines):
@@ -458,7 +492,14 @@ def run_check(prop, tier, seed):
             if l not in seen:
                 seen.add(l)
                 lines.append(l)
-        raw = run_impl(lines)
+        budget = float(os.environ.get("VERIF_IMPL_BUDGET", "2400" if tier == "thorough" else "600"))
+        raw = run_impl(lines, budget)
+        if SKIPPED in raw:
+            kept = [i for i, r in enumerate(raw) if r != SKIPPED]
+            notes.append("time budget of %.0f s for the implementation run exhausted: %d of %d cases not executed"
+                         % (budget, len(lines) - len(kept), len(lines)))
+            lines = [lines[i] for i in kept]
+            raw = [raw[i] for i in kept]
         impl = [prop.project(l, o) for l, o in zip(lines, raw)]
         if ok_drv:
             model, spec = run_model(lines)
